@@ -206,9 +206,11 @@ def parseLog (s : String) : Option (List Ev) :=
   let body := body.trimAscii.toString
   if body = "" then some [] else (body.splitOn " ; ").mapM fun t => parseEv t.trimAscii.toString
 
-/-- `T`, `R<k>`, `RE`, `SR`, `SD`, `Z` -/
+/-- `T`, `R<k>`, `RE`, `SR`, `SD`, `Z` (stop protocol, component `workerstop`) and every token
+starting with `S` (shared-sink protocol, component `sharedsink`: `SN[…]`, `SP[…]`, `SW<d>[…]`,
+`SK<d>[…]`, `SZ[…]`) -/
 def isStopCtlTok (t : String) : Bool :=
-  t = "T" || t = "SR" || t = "SD" || t = "Z" || t = "RE" ||
+  t = "T" || t.startsWith "S" || t = "Z" || t = "RE" ||
   (t.startsWith "R" && t.length > 1 && (t.drop 1).all Char.isDigit)
 
 def funnelMonLine (line : String) : String :=
